@@ -148,6 +148,19 @@ theorem C19_out_of_order_witness :
     ((RtxSys.new 3 0).exec (pre ++ [.run 1])).2 = [] ∧
     ((RtxSys.new 3 0).exec (pre ++ [.run 1, .run 0])).2 = [.timeout 3 1] := by decide
 
+set_option maxRecDepth 100000 in
+/-- WITNESS (decide on one trace; replayed on the implementation as known finding K19-pending-uint8)
+that `Tame` cannot be dropped: `pending` is a `uint8`. After 256 rounds of start / fire / stop with
+none of the 256 callbacks having run yet, the counter has wrapped to 0; the timer is started
+afresh (armed, nothing fired since: `fires = 0`), and the first stale callback that runs is taken
+for its expiry. Needs 256 goroutines stalled in front of the timer's mutex. -/
+theorem C19_pending_wrap_witness :
+    let ops : List Op := (List.replicate 256 [Op.start (fun _ => 1), Op.fire, Op.stop]).flatten ++ [Op.start (fun _ => 1)]
+    let s := ((RtxSys.new 3 0).exec ops).1
+    s.g.spawned.length = 256 ∧ s.t.pending = 1 ∧ s.fires = 0 ∧ s.g.armed.isSome = true ∧
+    (s.run 0).2 = some (.timeout 3 1) := by
+  decide
+
 /-! ## retry budget -/
 
 /-- Whatever a callback reports is determined by the budget: with `maxRetrans = k` the report is
